@@ -7,6 +7,9 @@ pub mod c01;
 pub mod c02;
 pub mod c03;
 pub mod c07;
+pub mod c17;
+pub mod c18;
+pub mod c19;
 
 pub fn make(id: &str) -> Option<Box<dyn Prop>> {
     match id {
@@ -14,6 +17,9 @@ pub fn make(id: &str) -> Option<Box<dyn Prop>> {
         "C02" => Some(Box::new(c02::C02::new())),
         "C03" => Some(Box::new(c03::C03::new())),
         "C07" => Some(Box::new(c07::C07::new())),
+        "C17" => Some(Box::new(c17::C17::new())),
+        "C18" => Some(Box::new(c18::C18::new())),
+        "C19" => Some(Box::new(c19::C19::new())),
         _ => None,
     }
 }
